@@ -170,6 +170,7 @@ Definition torch_frames_src (c : cfg) (x : list A) : list (list A) :=
   else
     let pl := if centered c then (if kaldi c then g_torch_pad_left_1 (L c) (S c) else g_torch_pad_left_2 (L c)) else g_torch_pad_left_0 in
     let nf := g_torch_num_frames_0 N (S c) in
+    if g_torch_test_2 nf then [] else
     let total := g_torch_total_len_0 nf (S c) pl (L c) in
     let pr := g_torch_pad_right_0 total N in
     let sig := if negb ((pl =? 0) && (pr =? 0)) then torch_pad x pl pr else x in
@@ -178,7 +179,7 @@ Definition torch_frames_src (c : cfg) (x : list A) : list (list A) :=
 Theorem torch_frames_tie c x : torch_frames_src c x = torch_frames c x.
 Proof.
   unfold torch_frames_src, torch_frames. cbv zeta. rewrite pad_left_torch_tie.
-  unfold g_torch_sig_len_0, g_torch_test_1, g_torch_num_frames_0, g_torch_total_len_0, g_torch_pad_right_0.
+  unfold g_torch_sig_len_0, g_torch_test_1, g_torch_test_2, g_torch_num_frames_0, g_torch_total_len_0, g_torch_pad_right_0.
   reflexivity.
 Qed.
 
@@ -211,9 +212,9 @@ Lemma walk_direct_step_tie D ln start consumed :
   g_torch_seg_len_1 start ln consumed half = Z.max 0 (Z.min (start + ln - consumed) half - start) /\
   g_torch_si_2 (g_torch_si_1 start half) = Z.max 0 (start - half) /\
   g_frame_consumed_1 consumed 3 = consumed + 3 /\ g_torch_consumed_0 consumed 3 = consumed + 3 /\
-  g_frame_test_0 consumed ln = (consumed <? ln) /\ g_torch_test_3 consumed ln = (consumed <? ln).
+  g_frame_test_0 consumed ln = (consumed <? ln) /\ g_torch_test_4 consumed ln = (consumed <? ln).
 Proof.
   cbv zeta. unfold g_frame_seg_len_4, g_frame_seg_len_3, g_frame_seg_len_2, g_frame_start_idx_2, g_frame_start_idx_1,
-    g_torch_seg_len_1, g_torch_si_2, g_torch_si_1, g_frame_consumed_1, g_torch_consumed_0, g_frame_test_0, g_torch_test_3.
+    g_torch_seg_len_1, g_torch_si_2, g_torch_si_1, g_frame_consumed_1, g_torch_consumed_0, g_frame_test_0, g_torch_test_4.
   repeat split; lia.
 Qed.
